@@ -61,7 +61,7 @@ META = {
                 note="Only allocations through libcoap's funnel; GnuTLS/uthash raw malloc outside."),
     "C19": dict(engine="vx-netsim", technique="deviation-bounded exhaustive schedule exploration of real DTLS (GnuTLS) client and server over the simulated network, credential product",
                 text="Real GnuTLS-backed DTLS client and server contexts over the simulated network with a virtual clock: product of client identity/key x server key table configurations, loss/duplication/reorder of handshake and record datagrams within a deviation bound, injected cleartext CoAP; handlers run only after a handshake with matching credentials, nothing queued leaves in clear, each queued CON gets exactly one NACK on failure, queued messages are delivered in order exactly once on success.",
-                note="PSK only, GnuTLS only, DTLS only (TLS over streams not covered); includes a server choosing the key by SNI with a filled SNI cache."),
+                note="PSK only, GnuTLS only; DTLS under loss/duplication/reordering, TLS (over the simulated TCP stream) for the credential product without faults; includes a server choosing the key by SNI with a filled SNI cache, servers without identity hint, survival of the loss of the first handshake flight."),
     "C20": dict(engine="vx-inproc", technique="exhaustive enumeration of resource tables x filters x all (offset, buffer length) windows against an RFC 6690 reference; exhaustive block-wise GET over the simulated network for tables x filters x Block2 sizes, differential against the in-process listing",
                 text="All subsets (<=3/4) of a catalogue of resource shapes x 15 filters x every (offset, buflen) window up to the listing length + 2 through coap_print_wellknown / coap_print_link; the full listing must equal the reference RFC 6690 listing as a set of links, every window must be exactly that slice with exact total length and truncation flag, nothing written outside the buffer.",
                 note="Trusted: ref/reflink.c; the block-wise GET clause is stage c20get (COAP_BLOCK_USE_LIBCOAP servers only: without it libcoap does no block-wise transfer)."),
